@@ -225,7 +225,18 @@ func BuildIngressClass(name, controller string) *networking.IngressClass {
 // certificate of a secret: file name and hash are functions of (ns, name, version)
 func (s *Secret) pemName() string { return fmt.Sprintf("%s_%s.pem", s.Namespace, s.Name) }
 func (s *Secret) hash() string {
-	return fmt.Sprintf("%x", sha1.Sum([]byte(fmt.Sprintf("%s/%s#%d", s.Namespace, s.Name, s.Version))))
+	return fmt.Sprintf("%x", sha1.Sum([]byte(s.contentID())))
+}
+
+// SharedVersion: versions from here on mean "the same content replicated into several secrets" (one
+// wildcard certificate copied to every namespace): the content is a function of the version alone.
+const SharedVersion = 1000
+
+func (s *Secret) contentID() string {
+	if s.Version >= SharedVersion {
+		return fmt.Sprintf("shared@%d", s.Version)
+	}
+	return fmt.Sprintf("%s/%s@%d", s.Namespace, s.Name, s.Version)
 }
 func (s *Secret) certificate() *x509.Certificate {
 	cn := ""
